@@ -115,7 +115,7 @@ Proof. exact count_ok_after_redraw. Qed.
 Print Assumptions C18_count_ok_after_redraw.
 
 Theorem C18_count_ok_after_one_api :
-  forall (H : nat) (konsole : bool) (lines : view -> list (Z * Z * Z)) w0 V0 base0 ws now V,
+  forall (H : nat) (konsole : bool) (lines : view -> list (Z * Z * Z)) (kittyw : nat -> bool) w0 V0 base0 ws now V,
   NoDup (map fst (filter (fun x : nat * wkind => is_kitty (snd x)) ws)) ->
   count_ok (step H konsole true lines (step H konsole true lines w0 (ORedraw V0 base0)) (OApi ws now)) V.
 Proof. exact count_ok_after_one_api. Qed.
